@@ -458,6 +458,29 @@ RFC7516_A3 = {
               "U0m_YmjN04DJvceFICbCVQ"),
     "plaintext": b"Live long and prosper.",
 }
+# RFC 7516 appendix A.1 (RSA-OAEP + A256GCM) and A.2 (RSA1_5 + A128CBC-HS256); keys: tests/keys/RFC7516-A.{1,2}.3.json
+RFC7516_A1 = {
+    "keyfile": "RFC7516-A.1.3.json",
+    "token": ("eyJhbGciOiJSU0EtT0FFUCIsImVuYyI6IkEyNTZHQ00ifQ."
+              "OKOawDo13gRp2ojaHV7LFpZcgV7T6DVZKTyKOMTYUmKoTCVJRgckCL9kiMT03JGeipsEdY3mx_etLbbWSrFr05kLzcSr4qKAq7YN7e9jwQRb23nfa6c9d-"
+              "StnImGyFDbSv04uVuxIp5Zms1gNxKKK2Da14B8S4rzVRltdYwam_lDp5XnZAYpQdb76FdIKLaVmqgfwX7XWRxv2322i-vDxRfqNzo_tETKzpVLzfiwQyeyPGLBIO56YJ7eObdv0je"
+              "81860ppamavo35UgoRdbYaBcoh9QcfylQr66oc6vFWXRcZ_ZT2LawVCWTIy3brGPi6UklfCpIMfIjf7iGdXKHzg."
+              "48V1_ALb6US04U3b."
+              "5eym8TW_c8SuK0ltJ3rpYIzOeDQz7TALvtu6UG9oMo4vpzs9tX_EFShS8iB7j6jiSdiwkIr3ajwQzaBtQD_A."
+              "XFBoMYUZodetZdvTiFvSkQ"),
+    "plaintext": b"The true sign of intelligence is not knowledge but imagination.",
+}
+RFC7516_A2 = {
+    "keyfile": "RFC7516-A.2.3.json",
+    "token": ("eyJhbGciOiJSU0ExXzUiLCJlbmMiOiJBMTI4Q0JDLUhTMjU2In0."
+              "UGhIOguC7IuEvf_NPVaXsGMoLOmwvc1GyqlIKOK1nN94nHPoltGRhWhw7Zx0-kFm1NJn8LE9XShH59_i8J0PH5ZZyNfGy2xGdULU7sHNF6Gp2vPLgNZ__deLKxGHZ7Pc"
+              "HALUzoOegEI-8E66jX2E4zyJKx-YxzZIItRzC5hlRirb6Y5Cl_p-ko3YvkkysZIFNPccxRU7qve1WYPxqbb2Yw8kZqa2rMWI5ng8OtvzlV7elprCbuPhcCdZ6XDP0_F8"
+              "rkXds2vE4X-ncOIM8hAYHHi29NX0mcKiRaD0-D-ljQTP-cFPgwCp6X-nZZd9OHBv-B3oWh2TbqmScqXMR4gp_A."
+              "AxY8DCtDaGlsbGljb3RoZQ."
+              "KDlTtXchhZTGufMYmOYGS4HffxPSUrfmqCHXaI9wOGY."
+              "9hH0vgRfYgPnAHOd8stkvw"),
+    "plaintext": b"Live long and prosper.",
+}
 # RFC 7518 appendix C (Concat KDF for ECDH-ES direct with A128GCM)
 RFC7518_C = {
     "alice": {"kty": "EC", "crv": "P-256", "x": "gI0GAILBdu7T53akrFmMyGcsF3n5dO7MmwNBHKW5SV0",
@@ -498,8 +521,35 @@ def spellings(rng):
 
     def tabbed(t):
         return t.replace(",", ",\t").replace("{", "{\r\n", 1)
+
+    def duplicate(t):
+        # the same member twice with the same value: json.loads keeps one, the octets differ
+        o = json.loads(t)
+        k = rng.choice(list(o))
+        return t[:-1] + "," + json.dumps(k) + ":" + json.dumps(o[k], separators=(",", ":")) + "}"
+
+    def duplicate_first(t):
+        o = json.loads(t)
+        k = list(o)[-1]
+        return "{" + json.dumps(k) + ":" + json.dumps(o[k], separators=(",", ":")) + "," + t[1:]
+
+    def escaped_name(t):
+        # \u escapes inside member NAMES ("\u0065nc" is "enc")
+        o = json.loads(t)
+        for k in o:
+            t = t.replace('"%s":' % k, '"\\u%04x%s":' % (ord(k[0]), k[1:]), 1)
+        return t
+
+    def escaped_all(t):
+        # every character of every member name and of the enc value escaped
+        o = json.loads(t)
+        esc = lambda x: "".join("\\u%04x" % ord(c) for c in x)
+        for k in o:
+            t = t.replace('"%s":' % k, '"%s":' % esc(k), 1)
+        return t.replace(':"%s"' % o["enc"], ':"%s"' % esc(o["enc"]), 1)
     return [("canonical", ident), ("spaced", spaced), ("pretty", pretty), ("reordered", reordered),
-            ("sorted", sorted_keys), ("padded", padded), ("u-escape", escaped), ("tabs", tabbed)]
+            ("sorted", sorted_keys), ("padded", padded), ("u-escape", escaped), ("tabs", tabbed), ("duplicate-member", duplicate),
+            ("duplicate-member-first", duplicate_first), ("u-escape-names", escaped_name), ("u-escape-everything", escaped_all)]
 
 
 def run(ctx):
@@ -637,6 +687,13 @@ def run(ctx):
 
     vector("RFC7516-A.3", RFC7516_A3["token"], RFC7516_A3["key"], None, RFC7516_A3["plaintext"])
     tdir = os.path.join(lib.REPO, "tests")
+    for nm, v in (("RFC7516-A.1", RFC7516_A1), ("RFC7516-A.2", RFC7516_A2)):
+        try:
+            vkey = json.load(open(os.path.join(tdir, "keys", v["keyfile"])))
+        except FileNotFoundError:
+            dist["fixtures-missing"] = dist.get("fixtures-missing", 0) + 1
+            continue
+        vector(nm, v["token"], vkey, None, v["plaintext"])
     try:
         fx = json.load(open(os.path.join(tdir, "fixtures", "jwe_rfc7520.json")))
         payload20 = fx.get("payload", "").encode("utf-8")
